@@ -149,45 +149,32 @@ pub fn scratch_dir() -> PathBuf {
     PathBuf::from(format!("/dev/shm/gsim-{:08x}", std::process::id()))
 }
 
-/// Runs a check over its scenario set on `workers` forked worker processes.
-/// Returns the process exit code (0 held / 1 violation / 2 harness error).
-pub fn run_check(check: &dyn Check, cfg: &RunCfg) -> i32 {
-    let t0 = Instant::now();
-    let total = cfg.scenarios.unwrap_or_else(|| check.scenarios(cfg.tier));
-    let scratch = scratch_dir();
-    let _ = std::fs::remove_dir_all(&scratch);
-    if std::fs::create_dir_all(&scratch).is_err() {
-        eprintln!("guardsim: scratch {} not writable", scratch.display());
-        return 2;
-    }
-    println!("guardsim: property={} tier={} VERIF_SEED={} scenarios={} workers={}", check.id(), cfg.tier.name(), cfg.seed, total, cfg.workers);
-
-    // fork workers; each writes JSON lines to its pipe
+/// Fork `workers` worker processes, statically partition scenario indices (n mod W), collect reports.
+pub fn pool(check: &dyn Check, cfg: &RunCfg, total: u64, scratch: &Path) -> (Vec<Report>, Vec<String>, u64) {
+    let mut harness_errors: Vec<String> = Vec::new();
+    let mut reports: Vec<Report> = Vec::new();
+    let mut total_execs = 0u64;
     let mut readers = Vec::new();
     let mut pids = Vec::new();
     for wi in 0..cfg.workers {
         let mut fds = [0i32; 2];
         unsafe {
             if libc::pipe(fds.as_mut_ptr()) != 0 {
-                eprintln!("guardsim: pipe failed");
-                return 2;
+                harness_errors.push("pipe failed".into());
+                return (reports, harness_errors, 0);
             }
         }
         let pid = unsafe { libc::fork() };
         if pid < 0 {
-            eprintln!("guardsim: fork failed");
-            return 2;
+            harness_errors.push("fork failed".into());
+            return (reports, harness_errors, 0);
         }
         if pid == 0 {
-            // worker
             unsafe {
                 libc::close(fds[0]);
-                for r in &readers {
-                    let _: &(i32, usize) = r;
-                }
             }
             let mut out = unsafe { std::fs::File::from_raw_fd(fds[1]) };
-            let mut w = Work::new(&scratch, wi);
+            let mut w = Work::new(scratch, wi);
             let mut n = wi as u64;
             while n < total {
                 let rep = check.run_scenario(&mut w, cfg.seed, n, cfg.tier);
@@ -207,8 +194,6 @@ pub fn run_check(check: &dyn Check, cfg: &RunCfg) -> i32 {
         readers.push((fds[0], wi));
         pids.push(pid);
     }
-
-    // aggregate (one reader thread per worker pipe)
     let (tx, rx) = std::sync::mpsc::channel::<Result<Value, String>>();
     let mut handles = Vec::new();
     for (fd, wi) in readers {
@@ -241,15 +226,6 @@ pub fn run_check(check: &dyn Check, cfg: &RunCfg) -> i32 {
         }));
     }
     drop(tx);
-
-    let mut agg = Report::default();
-    let mut traces: BTreeSet<u64> = BTreeSet::new();
-    let mut classes: BTreeSet<String> = BTreeSet::new();
-    let mut samples: Vec<(u64, Value)> = Vec::new();
-    let mut harness_errors: Vec<String> = Vec::new();
-    let mut done_scen = 0u64;
-    let mut total_execs = 0u64;
-    let mut viol: Vec<(u64, Violation)> = Vec::new();
     for msg in rx {
         match msg {
             Err(e) => harness_errors.push(e),
@@ -259,27 +235,7 @@ pub fn run_check(check: &dyn Check, cfg: &RunCfg) -> i32 {
                     continue;
                 }
                 match serde_json::from_value::<Report>(v) {
-                    Ok(rep) => {
-                        done_scen += 1;
-                        agg.execs += rep.execs;
-                        agg.sim_ns += rep.sim_ns;
-                        for (k, c) in rep.counters {
-                            *agg.counters.entry(k).or_default() += c;
-                        }
-                        traces.extend(rep.traces);
-                        classes.extend(rep.classes);
-                        if let Some(s) = rep.sample {
-                            if samples.len() < 64 {
-                                samples.push((rep.n, s));
-                            }
-                        }
-                        if let Some(h) = rep.harness_error {
-                            harness_errors.push(format!("scenario {}: {}", rep.n, h));
-                        }
-                        for v in rep.violations {
-                            viol.push((rep.n, v));
-                        }
-                    }
+                    Ok(rep) => reports.push(rep),
                     Err(e) => harness_errors.push(format!("bad report: {e}")),
                 }
             }
@@ -292,7 +248,52 @@ pub fn run_check(check: &dyn Check, cfg: &RunCfg) -> i32 {
         let mut st = 0;
         unsafe { libc::waitpid(pid, &mut st, 0) };
     }
+    reports.sort_by_key(|r| r.n);
+    (reports, harness_errors, total_execs)
+}
+
+/// Runs a check over its scenario set on `workers` forked worker processes.
+/// Returns the process exit code (0 held / 1 violation / 2 harness error).
+pub fn run_check(check: &dyn Check, cfg: &RunCfg) -> i32 {
+    let t0 = Instant::now();
+    let total = cfg.scenarios.unwrap_or_else(|| check.scenarios(cfg.tier));
+    let scratch = scratch_dir();
     let _ = std::fs::remove_dir_all(&scratch);
+    if std::fs::create_dir_all(&scratch).is_err() {
+        eprintln!("guardsim: scratch {} not writable", scratch.display());
+        return 2;
+    }
+    println!("guardsim: property={} tier={} VERIF_SEED={} scenarios={} workers={}", check.id(), cfg.tier.name(), cfg.seed, total, cfg.workers);
+    let (reports, mut harness_errors, total_execs) = pool(check, cfg, total, &scratch);
+    let _ = std::fs::remove_dir_all(&scratch);
+
+    let mut agg = Report::default();
+    let mut traces: BTreeSet<u64> = BTreeSet::new();
+    let mut classes: BTreeSet<String> = BTreeSet::new();
+    let mut samples: Vec<(u64, Value)> = Vec::new();
+    let mut done_scen = 0u64;
+    let mut viol: Vec<(u64, Violation)> = Vec::new();
+    for rep in reports {
+        done_scen += 1;
+        agg.execs += rep.execs;
+        agg.sim_ns += rep.sim_ns;
+        for (k, c) in rep.counters {
+            *agg.counters.entry(k).or_default() += c;
+        }
+        traces.extend(rep.traces);
+        classes.extend(rep.classes);
+        if let Some(s) = rep.sample {
+            if samples.len() < 64 {
+                samples.push((rep.n, s));
+            }
+        }
+        if let Some(h) = rep.harness_error {
+            harness_errors.push(format!("scenario {}: {}", rep.n, h));
+        }
+        for v in rep.violations {
+            viol.push((rep.n, v));
+        }
+    }
     let wall = t0.elapsed().as_secs_f64();
 
     // violations: group by signature, deterministic choice (lowest scenario index)
